@@ -153,7 +153,7 @@ static Result run_c09(const Case &c) {
         if (mpos != 0) r.cls("mutated_not_first"); else r.cls("mutated_first");
         if (mpos >= 32) r.cls("mutated_beyond_position_31");
         {
-            FragSet fs; fs.build(frs, {});
+            FragSet fs; fs.build(frs, c.ints("align"));
             DecodeOut d = decode(b.in->desc, fs, b.s.fraglen, 0);
             if (!fs.unchanged()) r.fail("decode modified a fragment");
             if (cons) {
@@ -162,7 +162,7 @@ static Result run_c09(const Case &c) {
             } else if (d.rc != -E_BADHEADER) r.fail("decode returned " + std::to_string(d.rc) + " for a stripe containing an unacceptable header (expected -EBADHEADER)");
         }
         {
-            FragSet fs; fs.build(frs, {});
+            FragSet fs; fs.build(frs, c.ints("align"));
             int dest = (fi + 1) % n;
             ReconOut o = reconstruct(b.in->desc, fs, b.s.fraglen, dest);
             if (!fs.unchanged()) r.fail("reconstruct modified a fragment");
@@ -180,13 +180,13 @@ static Result run_c09(const Case &c) {
             Config g8 = b.g; if (ref::is_isa(g8.backend)) g8.w = 8;
             bool demand = !(b.g.backend == ref::B_ISA_V && !ref::isa_first_k_invertible(g8, pm));
             {
-                FragSet fs; fs.build(frs2, {});
+                FragSet fs; fs.build(frs2, c.ints("align"));
                 DecodeOut d = decode(b.in->desc, fs, b.s.fraglen, 0);
                 if (cons) { if (d.rc == 0 && d.out != b.s.data) r.fail("decode (one fragment withheld) returned wrong data"); if (d.rc != 0 && demand) r.fail("decode (one fragment withheld) rejected (rc=" + std::to_string(d.rc) + ") a stripe whose headers the reference accepts"); }
                 else if (d.rc != -E_BADHEADER) r.fail("decode (one fragment withheld) returned " + std::to_string(d.rc) + " for a stripe containing an unacceptable header (expected -EBADHEADER)");
             }
             {
-                FragSet fs; fs.build(frs2, {});
+                FragSet fs; fs.build(frs2, c.ints("align"));
                 ReconOut o = reconstruct(b.in->desc, fs, b.s.fraglen, wh);
                 if (cons) { if (o.rc == 0 && f == orig && (o.out.size() != b.s.frags[wh].size() || memcmp(o.out.data() + 80, b.s.frags[wh].data() + 80, o.out.size() - 80))) r.fail("reconstruct of the withheld fragment returned a different payload"); if (o.rc != 0 && demand) r.fail("reconstruct of a withheld fragment rejected (rc=" + std::to_string(o.rc) + ") fragments whose headers the reference accepts"); }
                 else if (o.rc != -E_BADHEADER) r.fail("reconstruct of a withheld fragment returned " + std::to_string(o.rc) + " for an unacceptable header (expected -EBADHEADER)");
@@ -223,6 +223,7 @@ static Case gen_c09() {
     c.set("rot", pick(0, 31));
     if (coin(1, 4)) c.set("pad", coin() ? pick(1, 8) : pick(20, 70));
     if (coin(1, 3)) c.set("withhold", pick(1, 31));
+    if (coin(1, 3)) { std::vector<int> al; for (int i = 0; i < 40; i++) al.push_back(coin() ? 0 : (coin(1, 3) ? 8 : (int)pick(1, 15))); c.setv("align", al); }      // where the fragment buffers sit (16-aligned or not)
     if (coin(1, 3)) {
         uint32_t running = liberasurecode_get_version();
         int64_t v = coin(2, 3) ? (((int64_t)1 << 16) | (pick(0, 1) << 8) | pick(0, 9)) : (int64_t)pick(ref::V120, running);
@@ -250,6 +251,7 @@ static void sweep_c09() {
             c.setl("ops", {M_FLIP, bit, 0}); c.set("reseal", reseal); c.set("reseal_arg", 0);
             c.set("ro", (counter / 3) & 1);
             if (counter % 5 == 0) c.set("withhold", 1 + counter % 7);
+            if (counter % 4 == 1) c.setv("align", std::vector<int>{8, 0, 3, 8, 8, 1, 8, 15, 8, 8, 8, 8, 8, 8, 8, 8, 8, 8});
             sweep_case(c, run_c09);
         }
     stats().exhaustive = true;
@@ -274,7 +276,8 @@ static Result run_c10(const Case &c) {
         // shape): what reconstruct writes is governed by the configuration of the instance doing the rebuild
         Stripe foreign;
         int wct = (int)c.get("writer_ct", 0);
-        if (wct && wct != CT_CRC32) {
+        const bool supplied = c.get("via_reconstruct") == 2;       // the copy handed back is the writer's own fragment: own stripe only
+        if (wct && wct != CT_CRC32 && !supplied) {
             Config g2 = b.g; g2.ct = wct;
             set_env(wenv);
             Instance w2(g2);
@@ -285,13 +288,14 @@ static Result run_c10(const Case &c) {
         }
         const Stripe &src = foreign.frags.empty() ? b.s : foreign;
         std::vector<const std::vector<uint8_t> *> frs;
-        for (int i = 0; i < n; i++) if (i != fi) frs.push_back(&src.frags[i]);
+        for (int i = 0; i < n; i++) if (i != fi || c.get("via_reconstruct") == 2) frs.push_back(&src.frags[i]);      // 2: the index asked for is among the fragments supplied
+        if (c.get("via_reconstruct") == 2) r.cls("rebuilt_although_supplied");
         FragSet fs; fs.build(frs, {});
         int recenv = (int)c.get("recenv", wenv);      // the switch at repair time is independent of the one at encode time
         set_env(recenv);
         ReconOut o = reconstruct(b.in->desc, fs, b.s.fraglen, fi);
         set_env(0);
-        legacy = env_legacy(recenv);
+        legacy = supplied ? env_legacy(wenv) : env_legacy(recenv);
         r.cls(env_legacy(recenv) == env_legacy(wenv) ? "repair_env_same_variant" : "repair_env_other_variant");
         if (o.rc != 0) {
             if (b.g.backend == ref::B_ISA_V) { r.skipped = true; return r; }
@@ -380,7 +384,7 @@ static Case gen_c10() {
     gen_small_base(c, G_REAL, CT_CRC32);
     c.set("wenv", weighted({4, 1, 1, 3, 1}));
     c.set("renv", weighted({4, 1, 1, 3, 1}));
-    c.set("via_reconstruct", coin(1, 3) ? 1 : 0);
+    c.set("via_reconstruct", weighted({4, 2, 1}));
     c.set("recenv", weighted({4, 1, 1, 3, 1}));
     c.set("twin", coin(1, 3) ? 1 : 0);
     c.set("validator_ct", weighted({3, 1, 0, 1}));          // 0: the writer's own descriptor, 1: a NONE-configured one, 3: an MD5-configured one
